@@ -382,6 +382,19 @@ def execute_invivo(trace):
     violation = None
     known = load_known(PID)
     cands = []
+    faults = {}
+    fired = rep.get("fault_fired") or []
+    if fired:
+        kind_ = fired[0][0]
+        faults[kind_] = 1
+        probes["fault_" + kind_] = 1
+        # the last clause of the property, in vivo: the failed write must be reported (exception, or text on stdout/stderr)
+        reported = out.get("status", "ok") != "ok" or "(injected" in out.get("stdio", "")
+        if reported:
+            probes["fault_reported"] = 1
+        else:
+            rep.setdefault("c15", []).insert(0, {"cls": "silent_write_failure", "loader": fired[0][1], "family": "pipeline", "id": fired[0][1],
+                                                 "phase": "pipeline_export", "expected": "an exception or a message", "observed": out.get("stdio", "")[-300:]})
     for v in rep.get("c15", []):
         sig = invivo_signature(v)
         cands.append((sig in known, sig, v))
@@ -399,7 +412,7 @@ def execute_invivo(trace):
     status = out.get("status", "?")
     # a pipeline that fails only because bundles were exported / evicted mid-analysis reads something else than it saved
     run = next((op for op in trace["ops"] if op["op"] == "run"), {})
-    if violation is None and status != "ok" and (run.get("max_rows", 400000) != 400000 or run.get("caps")):
+    if violation is None and status != "ok" and not run.get("fault") and (run.get("max_rows", 400000) != 400000 or run.get("caps")):
         base_ops = [dict(op, max_rows=400000, caps={}, xprocess_hashseed=0) if op["op"] == "run" else op for op in trace["ops"]]
         out0, _rep0 = invivo.run_ops(base_ops)
         probes["invivo_failure_rechecked_with_stock_knobs"] = 1
@@ -411,7 +424,7 @@ def execute_invivo(trace):
                 "max_rows": run.get("max_rows"), "caps": run.get("caps"), "with_stock_knobs": out0.get("status")}}
     log = [status, out.get("detail", ""), sorted(invivo_signature(v) for v in rep.get("c15", [])),
            st.get("c15_saves"), st.get("c15_reads_checked"), st.get("c15_restore_checked")]
-    return {"violation": violation, "probes": probes, "faults": {}, "states": set(), "trans": set(),
+    return {"violation": violation, "probes": probes, "faults": faults, "states": set(), "trans": set(),
             "steps": st.get("c15_saves", 0) + st.get("c15_reads_checked", 0), "log": digest_hex(log),
             "outcome": "invivo:" + status.split(":")[0],
             "extra": {"family:invivo": 1, "invivo_saves": st.get("c15_saves", 0), "invivo_monitor_errors": st.get("c15_monitor_errors", 0)}}
